@@ -90,7 +90,13 @@ class Mon:
             dest = fakes.Net.norm(self_.hosts[host][1]) if host in self_.hosts else None
             mon.sent[key] = dict(dest=dest, msg=m, t=K.now, teardown=fakes.Net.norm(self_.address) in mon.teardown)
             K.probe("acked_send")
-            return orig_send(self_, host, m)
+            r = orig_send(self_, host, m)
+            if key[1] not in self_.inflight:
+                # the call returned normally but the message was given neither an index nor an in-flight record: it is on no
+                # wire and nobody will ever resend or report it (e.g. "coalesced" with an equal message still awaiting its ack)
+                mon.v("accepted_by_send_but_never_queued", (key, type(m).__name__, host))
+                mon.sent.pop(key, None)
+            return r
         self.patch(comms.ReliableSender, "send", rsend)
         orig_retry = comms.ReliableSender.maybe_retry
 
